@@ -389,6 +389,46 @@ def wloop (cfg : Cfg) (atLen : Bool) : Nat → P → Bytes → Res → Except Na
       else wloop cfg atLen fuel p' rest .eof
     | (.parsingError, _, _) => .error Gen.codeParseError
 
+/-- `size_ok` on the buffer itself: the length is only measured for a non-file field -/
+def sizeOkL (cfg : Cfg) (mime data : Bytes) : Bool := !(mime.isEmpty && decide (data.length > cfg.fieldLimit))
+
+theorem sizeOkL_eq (cfg : Cfg) (mime data : Bytes) : sizeOkL cfg mime data = sizeOk cfg mime data.length := rfl
+
+/-- `wloop` as it is *executed* by the driver (identical but for measuring a part lazily);
+`wloop_eq_fast` below is a `csimp` lemma: the compiler replaces `wloop` by this proven-equal
+function, nothing else refers to it. -/
+def wloopFast (cfg : Cfg) (atLen : Bool) : Nat → P → Bytes → Res → Except Nat (P × Res)
+  | 0, p, _, r => .ok (p, r)
+  | fuel + 1, p, buf, r =>
+    if buf.isEmpty then .ok (p, r) else
+    match consume cfg.toPCfg p buf with
+    | (.metaReady, p', rest) => wloopFast cfg atLen fuel p' rest .metaReady
+    | (.contentPartial, p', rest) =>
+      if !sizeOkL cfg p'.cur.mime p'.dataRev then .error Gen.codeSizePartial
+      else wloopFast cfg atLen fuel p' rest .contentPartial
+    | (.contentReady, p', rest) =>
+      match p'.filesRev with
+      | [] => .error 500
+      | f :: _ =>
+        if !sizeOkL cfg f.mime f.data then .error Gen.codeSizeReady
+        else wloopFast cfg atLen fuel p' rest .contentReady
+    | (.continueInput, p', rest) => wloopFast cfg atLen fuel p' rest .continueInput
+    | (.noRoomLeft, _, _) => .error Gen.codeNoRoom
+    | (.eof, p', rest) =>
+      if !rest.isEmpty then .error Gen.codeEofNotAtBufferEnd
+      else if !atLen then .error Gen.codeEofBeforeLength
+      else wloopFast cfg atLen fuel p' rest .eof
+    | (.parsingError, _, _) => .error Gen.codeParseError
+
+@[csimp] theorem wloop_eq_fast : @wloop = @wloopFast := by
+  funext cfg atLen fuel
+  induction fuel with
+  | zero => funext p buf r; rfl
+  | succ n ih =>
+    funext p buf r
+    simp only [wloop, wloopFast, sizeOkL_eq, ih]
+    rfl
+
 /-- The same loop with `consume` inlined: one structural recursion over the buffer.
 `Lemmas.wloop_eq_ploop` proves it equal to `wloop`. -/
 def ploop (cfg : Cfg) (atLen : Bool) (p : P) : Bytes → Res → Except Nat (P × Res)
